@@ -26,7 +26,7 @@ def run(tier, seed, replay):
                 continue
             seen.add(key)
             v.violation(key, "instruction bytes %s at PC=%s took %d clock edges between boundaries, Isa!cost (words + RAM waits) says %d"
-                        % (m["bytes"], m["pc"], m["edges"], m["isa_cost"]), m)
+                        % (m["bytes"], m["pc"], m["edges"], m["isa_cost"]) + (" (the next boundary is never reached)" if m.get("tag") == "stuck" else ""), m)
     # I->S: cost of every instruction of random sequences on the real machine (history / step-mode independence)
     rng = random.Random(seed + 15)
     nt, nimg, ninsn = (6, 6, 120) if tier == "quick" else (48, 10, 200)
